@@ -107,9 +107,15 @@ def h_calculate_specificity(ctx):
     nodes = Walk(Tree(text))
     n = z3.Length(nodes)
     fr = Frame(fi, {})
-    fors = sorted([x for x in _ast.walk(fi.node) if isinstance(x, _ast.For)], key=lambda x: x.lineno)
-    if len(fors) != 2:
-        raise Unsupported('calculate_specificity: expected the walk over the nodes and the walk over a call\'s arguments')
+    all_fors = sorted([x for x in _ast.walk(fi.node) if isinstance(x, _ast.For)], key=lambda x: x.lineno)
+    # the loops are told apart by what they run over, not by their number or position: the walk over the nodes of the expression, and (inside it, if the
+    # code has one) the walk over the arguments of a call
+    walks = [x for x in all_fors if isinstance(x.iter, _ast.Call) and _ast.unparse(x.iter.func) == 'ast.walk']
+    arg_loops = [x for x in all_fors if isinstance(x.iter, _ast.Attribute) and x.iter.attr == 'args']
+    if len(walks) != 1 or len(walks) + len(arg_loops) != len(all_fors):
+        raise Unsupported('calculate_specificity: expected one walk over the nodes of the expression (and loops over the arguments of a call), found %s'
+                          % [_ast.unparse(x.iter) for x in all_fors])
+    fors = walks + arg_loops
 
     def as_set(v):
         return v.expr if isinstance(v, SymSet) and v.expr is not None else z3.EmptySet(StrS)
@@ -132,8 +138,9 @@ def h_calculate_specificity(ctx):
         args = it.cols[0]
         inner['args'] = args
         return {'pattern_text_of_the_arguments_so_far': to_z3(env['pattern_length'], IntS) == inner['before'] + ArgLen(args, j)}
-    sp.loops[(q, fr.loop_ordinals[id(fors[1])])] = LoopSpec(inv_args, {'pattern_length': lambda c: c.fresh('pattern_length', IntS)}, kind='property', pre=pre,
-                                                            unfold=lambda I_, env, j, it: ArgLen.unfold(it.cols[0], j))
+    for al in arg_loops:
+        sp.loops[(q, fr.loop_ordinals[id(al)])] = LoopSpec(inv_args, {'pattern_length': lambda c: c.fresh('pattern_length', IntS)}, kind='property', pre=pre,
+                                                           unfold=lambda I_, env, j, it: ArgLen.unfold(it.cols[0], j))
     for g in (PatCount, PatText, Kinds):
         for f in g.unfold(nodes, z3.IntVal(-1)):
             ctx.assume(f)
